@@ -1236,12 +1236,29 @@ def do_lmfit(data, params, B=None, errs=None, dojac=True):
         else:
             return (model - data[mask]).dot(B)
 
+    def dfun(pars, **kwargs):
+        """
+        The analytic Jacobian with its columns in the order in which lmfit
+        holds its variables (the order of insertion into `pars`).
+        lmfit_jacobian is ordered by component, then amp, xo, yo, sx, sy,
+        theta; the two agree only when pars was built in that order.
+        """
+        matrix = lmfit_jacobian(pars, **kwargs)
+        ordered = ["c{0}_{1}".format(i, p)
+                   for i in range(int(pars['components'].value))
+                   for p in ['amp', 'xo', 'yo', 'sx', 'sy', 'theta']
+                   if pars["c{0}_{1}".format(i, p)].vary]
+        held = [k for k in pars.keys() if k in ordered]
+        if held == ordered:
+            return matrix
+        return matrix[:, [ordered.index(k) for k in held]]
+
     if dojac:
         result = lmfit.minimize(residual, params,
                                 kws={
                                     'x': mask[0], 'y': mask[1],
                                     'B': B, 'errs': errs},
-                                Dfun=lmfit_jacobian)
+                                Dfun=dfun)
     else:
         result = lmfit.minimize(residual, params,
                                 kws={
